@@ -63,6 +63,15 @@ def run(ctx):
                           "gated": True, "seed": 1, "forced": False, "filler": 0,
                           "steps": [A("c1"), {"t": "recv"}, {"t": "upsend"}, A("c2"), {"t": "recv"}, {"t": "upsend"}, {"t": "recv"}, {"t": "recv"},
                                     {"t": "send", "c": "c3", "k": "list", "u": "", "p": "", "a": False}, {"t": "recv"}, {"t": "free"}]})
+    # a request that waits long in its queue (the dispatcher is held for 6 s by its gate): it is answered when its turn comes and
+    # the caller is still there to take the answer - no give-up on either side may leave the dispatcher stuck
+    for via in ("api", "sasl") if not thorough else ("api", "sasl", "http", "ldap", "basic"):
+        scenarios.append({"name": "slow-turn-%s" % via, "mode": "", "default": 2, "files": up, "passwords": af.PASSWORDS, "gated": True,
+                          "seed": 1, "forced": False, "filler": 0, "frontends": via != "api", "http_admin": ["u2", "p2"],
+                          "steps": ([{"t": "token"}] if via != "api" else []) +
+                                   [{"t": "send", "c": "c1", "k": "auth", "u": "u1", "p": "p1", "a": False, "via": via}, {"t": "sleep", "n": 6000},
+                                    {"t": "recv"}, {"t": "send", "c": "c2", "k": "list", "u": "", "p": "", "a": False}, {"t": "recv"},
+                                    {"t": "send", "c": "c3", "k": "auth", "u": "u2", "p": "p2", "a": False, "via": via}, {"t": "recv"}, {"t": "free"}]})
     scenarios += af.simulated_scenarios(ctx, 12 if not thorough else 100)
     # transient accept errors (EMFILE) must not stop the saslauthd frontend from answering
     scenarios.append({"name": "sasl-accept-emfile", "mode": "", "default": 2, "files": up, "passwords": af.PASSWORDS,
